@@ -8,7 +8,7 @@ export GOFLAGS=-mod=mod GOPROXY=off GOSUMDB=off GOTOOLCHAIN=local GOMODCACHE=/ro
 wt=/var/tmp/seedverify.$$; tmp=/var/tmp/seedverify.$$.tmp
 mkdir -p "$tmp"; export TMPDIR="$tmp"
 trap 'git -C /repo worktree remove --force "$wt" >/dev/null 2>&1; rm -rf "$tmp" "$wt"' EXIT
-git -C /repo worktree add -q --detach "$wt" 472b02f || exit 2
+git -C /repo worktree add -q --detach "$wt" "${SEED_BASE:-472b02f}" || exit 2
 cd "$wt"
 demo_dir=$(python3 -c "import json;print(json.load(open('$src/meta.json'))['demo_dir'])")
 demo_cmd=$(python3 -c "import json;print(json.load(open('$src/meta.json'))['demo_cmd'])")
@@ -29,7 +29,7 @@ if [ $clean_rc -eq 0 ] && [ $mut_rc -ne 0 ] && [ $suite_rc -eq 0 ]; then
   python3 - "$src/meta.json" "$dest/meta.json" <<PY
 import json,sys
 m=json.load(open(sys.argv[1]))
-m["confirmed"]={"by":"tools/verify_seed.sh on a scratch worktree of commit 472b02f","build":"ok","existing_suite":"pass (go test -vet=off -count=1 ./...)","demo_on_clean_tree":"pass","demo_with_change":"fail"}
+m["confirmed"]={"by":"tools/verify_seed.sh on a scratch worktree of commit ${SEED_BASE:-472b02f}","build":"ok","existing_suite":"pass (go test -vet=off -count=1 ./...)","demo_on_clean_tree":"pass","demo_with_change":"fail"}
 json.dump(m,open(sys.argv[2],"w"),indent=1)
 PY
   say "CONFIRMED -> $dest"
